@@ -37,7 +37,7 @@ def check(model: Model, run: Run) -> None:
                any(isinstance(n, ast.Call) and isinstance(n.func, ast.Name) and n.func.id == hdr.name for n in ast.walk(fi.node))]
     run.coverage["header_routine_callers"] = callers
     n_r = 0
-    for fi in [f for f in (hdr, an.octet_number_reader) if f is not None]:
+    for fi in an.header_family:
         for r in [n for n in walk_no_nested(fi.node) if isinstance(n, ast.Raise)]:
             n_r += 1
             exq = None
